@@ -338,7 +338,11 @@ class BaseTemplate:
         # The fields of fixed alphabet come first, each terminated; the
         # body (any text) comes last, so that no two different inputs
         # give the same byte sequence.
-        class_name = type(self).__name__.encode('utf-8')
+        # (the qualified name: template classes of two packages may
+        # share their plain name)
+        cls = type(self)
+        class_name = "{}.{}".format(
+            cls.__module__, cls.__qualname__).encode('utf-8')
         filename = str(self.filename)
         sha = get_pkg_digest()
         sha.update(class_name + b'\n')
